@@ -505,7 +505,8 @@ func runRoute(planPath, outPath string, seed int64) {
 		}
 		restful.TrimRightSlashEnabled = true
 		addPanic := ""
-		holdBack, dynamicTables = p.Late, p.Late
+		// Route() may be called on a registered WebService at any time; RemoveRoute needs dynamic routes
+		holdBack, dynamicTables = p.Late, p.Late && swapDim
 		swapLate = p.Late && swapDim
 		for _, router := range routers {
 			for pi, ord := range orders {
